@@ -606,3 +606,40 @@ package decimal
 //@   ensures[low] i/19 < len(x) ==> (result == 0 <==> ((forall k in 0..i/19 :: x[k] == 0) && x[i/19] % p10(i%19) == 0))
 //@   loop 1 invariant[range] -1 <= rangeindex && rangeindex < j && j < len(old(x))
 //@   loop 1 invariant[zero] forall k in 0..rangeindex+1 :: old(x)[k] == 0
+
+// ---------------------------------------------------------------------------
+// Long multiplication, squaring, division.  The value clauses of the Karatsuba and
+// Knuth/Burnikel-Ziegler paths are not within reach of the VC generator (C06): the
+// contracts below are ASSUMED by callers and validated by bounded execution against
+// math/big (bounded/c06_test.go).
+
+//@ func (z dec) mul(x, y dec) dec
+//@   requires[words]   wordsok(x) && wordsok(y) && natnorm(x) && natnorm(y) && small(x) && small(y)
+//@   modifies memcap(z)
+//@   ensures[where]    result_in(result, z)
+//@   ensures[words,C06,C08] wordsok(result) && natnorm(result)
+//@   ensures[value,C01,C06] V(result) == old(V(x))*old(V(y))
+//@   ensures[len]      len(result) <= len(x) + len(y)
+//@   ensures[operands,C09,C18] (!goalias(z, x) ==> samewords(x, old(x))) && (!goalias(z, y) ==> samewords(y, old(y)))
+//@   status assumed bounded: bounded/c06_test.go
+
+//@ func (z dec) sqr(x dec) dec
+//@   requires[words]   wordsok(x) && natnorm(x) && small(x)
+//@   modifies memcap(z)
+//@   ensures[where]    result_in(result, z)
+//@   ensures[words,C06,C08] wordsok(result) && natnorm(result)
+//@   ensures[value,C01,C06] V(result) == old(V(x))*old(V(x))
+//@   ensures[len]      len(result) <= 2*len(x)
+//@   ensures[operands,C09,C18] !goalias(z, x) ==> samewords(x, old(x))
+//@   status assumed bounded: bounded/c06_test.go
+
+//@ func (z dec) div(z2, u, v dec) (q, r dec)
+//@   requires[words]   wordsok(u) && wordsok(v) && natnorm(u) && natnorm(v) && len(v) >= 1 && small(u) && small(v)
+//@   requires[overlap] z2.arr != z.arr || cap(z2) == 0 || cap(z) == 0
+//@   modifies memcap(z), memcap(z2)
+//@   ensures[where]    result_in(q, z) && result_in(r, z2)
+//@   ensures[words,C06,C08] wordsok(q) && natnorm(q) && wordsok(r) && natnorm(r)
+//@   ensures[value,C01,C02,C06] V(q)*old(V(v)) + V(r) == old(V(u)) && V(r) < old(V(v))
+//@   ensures[len]      len(q) <= len(u) && len(q) + len(v) >= len(u)
+//@   ensures[operands,C09,C18] (!goalias(z, u) && !goalias(z2, u) ==> samewords(u, old(u))) && (!goalias(z, v) && !goalias(z2, v) ==> samewords(v, old(v)))
+//@   status assumed bounded: bounded/c06_test.go
